@@ -60,9 +60,12 @@ impl ZodBindingsGenerator {
             .collect();
 
         let enum_values = variants.join(", ");
+        // Like object schemas, enums also export their inferred type: commands.ts and
+        // events.ts refer to it as `types.<Name>`
         format!(
-            "export const {}Schema = z.enum([{}]);\n\n",
-            name, enum_values
+            "export const {name}Schema = z.enum([{values}]);\n\nexport type {name} = z.infer<typeof {name}Schema>;\n\n",
+            name = name,
+            values = enum_values
         )
     }
 
